@@ -149,6 +149,19 @@ Definition discover_descriptors (fuel : nat) (r : nat -> Z -> resp) (vh ce : Z) 
 Definition discover_attributes (fuel : nat) (r : nat -> Z -> resp) : outcome * nat :=
   loop (cond_le 0xFFFF) (fun s es => proc_plain s es [] 0) false r fuel 0 1 [].
 
+(* Client.read_characteristics_by_uuid(uuid, service): Read By Type(uuid) in [handle, end]; the
+   values are collected as they are (no parsing), any error other than NOT_FOUND: return [] *)
+Fixpoint proc_plain_raw (start : Z) (es : list entry) (acc : list entry) (last_h : Z) : step_res :=
+  match es with
+  | [] => Next acc (last_h + 1)
+  | e :: es' =>
+      if e_h e <? start then Bogus
+      else proc_plain_raw start es' (acc ++ [e]) (e_h e)
+  end.
+
+Definition read_characteristics_by_uuid (fuel : nat) (r : nat -> Z -> resp) (sh se : Z) : outcome * nat :=
+  loop (cond_le se) (fun s es => proc_plain_raw s es [] 0) false r fuel 0 sh [].
+
 (* The loop of discover_attributes BEFORE D12a: while True, no empty-list check, the next
    starting handle comes from the last attribute accumulated so far (IndexError when there is
    none).  Kept only to state why the fix is needed (discover_attributes_unfixed_refuted). *)
@@ -191,6 +204,33 @@ Definition discover_service_unfixed (fuel : nat) (r : nat -> Z -> resp) : outcom
 Record uuid := mkU { u_len : Z; u_id : Z }.          (* PDU form: 2 or 16 bytes *)
 
 Definition uuid_eqb (a b : uuid) : bool := andb (u_len a =? u_len b) (u_id a =? u_id b).
+
+(* the uuids filter of Client.discover_characteristics: applied AFTER the end group handles have
+   been computed from the full list of declarations; an empty filter keeps everything.  A
+   characteristic entry's payload is [properties; value handle; uuid length; uuid value]. *)
+Definition entry_uuid (e : entry) : uuid := mkU (nth 2 (e_data e) 0) (nth 3 (e_data e) 0).
+Definition uuid_in (us : list uuid) (u : uuid) : bool := existsb (uuid_eqb u) us.
+Definition filter_uuids (us : list uuid) (es : list entry) : list entry :=
+  match us with [] => es | _ => filter (fun e => uuid_in us (entry_uuid e)) es end.
+
+Definition discover_characteristics_uuids (fuel : nat) (r : nat -> Z -> resp) (sh se : Z) (us : list uuid) : outcome * nat :=
+  match discover_chars_loop fuel r sh se with
+  | (Done es, n) => (Done (filter_uuids us (fix_ends se es)), n)
+  | other => other
+  end.
+
+(* Client.discover_characteristics(uuids, None): every known service in turn; "return []" and
+   exceptions leave the whole procedure, a break only the current service *)
+Fixpoint discover_characteristics_all (r : nat -> Z -> resp) (svcs : list (Z * Z)) (us : list uuid)
+                                      (n : nat) (acc : list entry) : outcome * nat :=
+  match svcs with
+  | [] => (Done acc, n)
+  | (sh, se) :: rest =>
+      match loop (cond_le se) (fun s es => proc_plain s es [] 0) true r (fuel_for sh) n sh [] with
+      | (Done es, n') => discover_characteristics_all r rest us n' (acc ++ filter_uuids us (fix_ends se es))
+      | other => other
+      end
+  end.
 
 Definition U16 (v : Z) : uuid := mkU 2 v.
 Definition UUID_PRIMARY := U16 0x2800.
@@ -397,6 +437,9 @@ Fixpoint read_blob_loop (fuel : nat) (blob : Z -> rresp) (mtu : Z) (acc : list Z
   match fuel with
   | O => ROutOfFuel
   | S f =>
+      (* ATT_Read_Blob_Request(value_offset=offset) is a 2-byte field: serialising an offset
+         above 0xFFFF raises (struct.error) and the exception leaves read_value *)
+      if 0xFFFF <? off then RRaised (-4) else
       match blob off with
       | VNone => RRaised (-3)                                  (* TimeoutError *)
       | VErr c => if orb (c =? ATT_NOT_LONG) (c =? ATT_INVALID_OFFSET) then RDone acc else RRaised c
@@ -500,6 +543,12 @@ Definition notify_subscriber (mtu_of : Z -> Z) (s : subs) (bearer h : Z) (v : li
   send_single false force mtu_of s bearer h v.
 Definition indicate_subscriber (mtu_of : Z -> Z) (s : subs) (bearer h : Z) (v : list Z) (force : bool) : list pdu :=
   send_single true force mtu_of s bearer h v.
+
+(* Server.notify_subscriber / indicate_subscriber called with a Connection and no force: the
+   EATT channels of that connection (le_coc_channels[handle] with psm == EATT_PSM, in dict
+   order) and then the connection itself, each through the single-bearer routine *)
+Definition subscriber_fan_out (indicate : bool) (mtu_of : Z -> Z) (s : subs) (eatt : list Z) (conn h : Z) (v : list Z) : list pdu :=
+  flat_map (fun b => send_single indicate false mtu_of s b h v) (eatt ++ [conn]).
 
 (* Server._notify_or_indicate_subscribers *)
 Definition has_entry (s : list (Z * list Z)) (h : Z) : bool :=
